@@ -35,7 +35,7 @@ def _specs() -> Dict[str, Dict[str, Any]]:
             "assumptions": GENERATOR_ASSUMPTIONS,
             "expected_probes": ["fractional_world", "more_than_8_ranks", "worker_reused", "pool_of_size_1",
                                 "completion_out_of_order", "trim_removed_rows", "linked_rows",
-                                "link_partner_absent", "restart_sessions"],
+                                "link_partner_absent", "restart_sessions", "tool_rewritten_file"],
         }
     from .profiles import symtab
     specs["C11"] = {
@@ -84,6 +84,12 @@ def _specs() -> Dict[str, Dict[str, Any]]:
         "batches": [
             {"name": "fault-free", "args": {"kind": "c19", "faulty": False}, "runs": {"quick": 140, "thorough": 3000}},
             {"name": "faults", "args": {"kind": "c19", "faulty": True}, "runs": {"quick": 100, "thorough": 2500}},
+            # fault-point enumeration: `slots` consecutive runs share a base plan; slot j puts one fault at the
+            # j-th (file, open, call) x kind point of the first save / the first restore
+            {"name": "enum-save", "args": {"kind": "c19", "enum": "save"}, "slots": 128,
+             "runs": {"quick": 2 * 128, "thorough": 40 * 128}},
+            {"name": "enum-restore", "args": {"kind": "c19", "enum": "restore"}, "slots": 32,
+             "runs": {"quick": 2 * 32, "thorough": 40 * 32}},
         ],
         "rule": ("one evaluation = one simulated run: analysis in session A, then 1-4 save / restore cycles in which each "
                  "restore happens in the same session, in a new interpreter under the same zygote, or in a new interpreter "
@@ -136,6 +142,8 @@ def _specs() -> Dict[str, Dict[str, Any]]:
         "batches": [
             {"name": "fault-free", "args": {"faulty": False}, "runs": {"quick": 160, "thorough": 3000}},
             {"name": "faults", "args": {"faulty": True}, "runs": {"quick": 80, "thorough": 2000}},
+            {"name": "enum-writers", "args": {"enum": True}, "slots": 64,
+             "runs": {"quick": 3 * 64, "thorough": 60 * 64}},
         ],
         "rule": ("one evaluation = one simulated run over a generated world in both file formats: session A loads the directory "
                  "and issues 1-4 writer operations (generate_trace_with_counters with every series selection / rank subset / "
